@@ -14,7 +14,10 @@ type Config struct {
 	Disk      *Disk // not modified (copied on first write)
 	Cwd       string
 	CPUs      int
-	Tools     ToolModel
+	// GoMaxProcs is what runtime.GOMAXPROCS(0) reports (0 = same as CPUs). It may exceed the
+	// number of CPUs of the machine (environment variable, embedding program).
+	GoMaxProcs int
+	Tools      ToolModel
 	Faults    []Fault
 	MaxSteps  int
 	KeepTrace bool
@@ -380,7 +383,11 @@ func (k *Kernel) handle(t *task, r *Req) {
 		}
 		k.trace(t, r.Op, fmt.Sprintf("st=%d", t.pending.Status))
 	case OpNumCPU:
-		t.pending = Rep{A: int64(k.cfg.CPUs)}
+		n := k.cfg.CPUs
+		if r.A == 1 && k.cfg.GoMaxProcs > 0 {
+			n = k.cfg.GoMaxProcs
+		}
+		t.pending = Rep{A: int64(n)}
 		k.trace(t, r.Op, "")
 	case OpNow:
 		t.pending = Rep{A: int64(k.now)}
